@@ -282,4 +282,70 @@ build computes. No other `…P` function of the v2 model uses `subP`;
 operations (indexing, slicing, `copy_from_slice`) never panic either. Hence
 debug (overflow-checked) and release builds agree on every input. -/
 
+/-! ## N7 (added after audit 4): display, fuelled iteration in the panic layer, end of iteration -/
+
+/-- `Display` goes through `length()`; no panic once the 16 fixed bytes are there. -/
+theorem Header.displayP_eq (h : Header) (hl : 16 ≤ h.header.length) :
+    h.displayP = .val h.display := by
+  unfold Header.displayP Header.display
+  rw [Header.lengthP_eq h hl]
+  rfl
+
+/-- The fuelled loop over `nextP` never panics and is the fuelled loop over `next`. -/
+theorem runP_eq (fuel : Nat) (it : Iter) : Iter.runP fuel it = .val (Iter.run fuel it) := by
+  induction fuel generalizing it with
+  | zero => rfl
+  | succ fuel ih =>
+    simp only [Iter.runP, Iter.run, nextP_eq]
+    cases it.next with
+    | none => rfl
+    | some p =>
+      obtain ⟨i, it'⟩ := p
+      simp only [ih]
+
+/-- The cursor arithmetic of the item path: `self.offset += tlv_length` with
+`tlv_length = 3 + value.len()`, and the sum stays inside the section. -/
+theorem next_ok_offset {it it' : Iter} {t : Tlv} (h : it.next = some (.ok t, it')) :
+    it'.offset = it.offset + (minTlvLen + t.value.length) ∧ it'.offset ≤ it.bytes.length ∧
+    it'.bytes = it.bytes ∧ t.value.length < 65536 := by
+  unfold Iter.next at h
+  by_cases hoff : it.offset ≥ it.bytes.length
+  · simp only [hoff, if_true] at h; cases h
+  · simp only [hoff, if_false] at h
+    split at h
+    · cases h
+    · split at h
+      · cases h
+      · rename_i h3 hlen
+        simp only [List.length_drop] at hlen h3
+        simp only [Option.some.injEq, Prod.mk.injEq, Except.ok.injEq] at h
+        obtain ⟨rfl, rfl⟩ := h
+        have hb := be16_lt (byteAt (it.bytes.drop it.offset) 1) (byteAt (it.bytes.drop it.offset) 2)
+        simp only [List.length_drop, List.length_take, minTlvLen] at hlen h3 ⊢
+        refine ⟨?_, ?_, trivial, ?_⟩ <;> omega
+
+/-- From any state inside the section, some `k ≤ remaining / 3 + 1` successful calls of
+`next` lead to a state in which `next` returns `None`. -/
+theorem iterate_ends (n : Nat) : ∀ it : Iter, it.bytes.length - it.offset = n →
+    ∃ k, k ≤ n / 3 + 1 ∧ ∃ it', Iter.iterate k it = some it' ∧ it'.next = none := by
+  induction n using Nat.strongRecOn with
+  | _ n ih =>
+    intro it hn
+    cases hnx : it.next with
+    | none => exact ⟨0, by omega, it, rfl, hnx⟩
+    | some p =>
+      obtain ⟨i, it1⟩ := p
+      cases i with
+      | error e =>
+        refine ⟨1, by omega, it1, ?_, C11.after_error_exhausted it it1 e hnx⟩
+        simp only [Iter.iterate, hnx]
+      | ok t =>
+        obtain ⟨h1, h2, h3, -⟩ := next_ok_offset hnx
+        simp only [minTlvLen] at h1
+        obtain ⟨k, hk, it', hit, hnone⟩ :=
+          ih (it1.bytes.length - it1.offset) (by rw [h3]; omega) it1 rfl
+        refine ⟨k + 1, ?_, it', ?_, hnone⟩
+        · rw [h3] at hk; omega
+        · simp only [Iter.iterate, hnx, hit]
+
 end V2
